@@ -78,6 +78,8 @@ def run(ctx):
         ctx.nontrivial((v, s))
     ctx.sample({"op": "CVSS%s(s)" % send[5][0], "s": send[5][1]})
     ctx.sample({"op": "CVSS%s(s)" % send[-1][0], "s": send[-1][1]})
+    from .. import conc
+    conc.flag_variants(ctx, [["C", v, s] for v, s in send[:: max(1, len(send) // ctx.n(400, 4000))]], "acceptance")
     if ctx.model_available:
         n, dis, outs = core.compare_construct(send, "", ctx.tally)
         for v, s, mo, io_ in dis:
